@@ -39,10 +39,10 @@ theorem saveConfirmed_mono (a b : List Ev) (h : saveConfirmed a = true) : saveCo
 /-- ASA: the `write memory` block ends in normal mode only if the reply contained `[OK]` -/
 theorem asa_saved_if_completes (env : Env) (s : St) (hm : s.mode = .run)
     (hend : (exec (GetCmdOutput .save (.lit "write memory") ["write memory"] ;;
-       .ite (.not (.flag .okMark)) "!strings.Contains(out, \"[OK]\")"
+       .ite (.not (.flag .okMark)) "¬strings.Contains($GetCmdOutput, \"[OK]\")"
          (.abort ["Command 'write memory' failed, missing [OK] in output:\n%s", "_"]) .skip) env s).mode = .run) :
     saveConfirmed (exec (GetCmdOutput .save (.lit "write memory") ["write memory"] ;;
-       .ite (.not (.flag .okMark)) "!strings.Contains(out, \"[OK]\")"
+       .ite (.not (.flag .okMark)) "¬strings.Contains($GetCmdOutput, \"[OK]\")"
          (.abort ["Command 'write memory' failed, missing [OK] in output:\n%s", "_"]) .skip) env s).tr = true := by
   have h1 := getCmdOutput_spec noBad .save (.lit "write memory") ["write memory"] env s (J_noBad s) hm
   rw [exec_seq] at hend ⊢
@@ -101,15 +101,15 @@ theorem iter_ne_run (f : St → St) (hf : ∀ st, st.mode = .run → (f st).mode
 /-- the tail of an IOS `writeMem` round returns only on `[OK]` -/
 theorem ios_tail_ret (env : Env) (sX : St) (h : Pd noBad .save sX)
     (hr : (exec (
-      .ite (.flag .okMark) "strings.Contains(out, \"[OK]\")" (.ret .none []) .skip ;;
-      .ite (.flag .openFailed) "strings.Contains(out, \"startup-config file open failed\")"
-        (.ite .ctrPos "retries > 0" (.decCtr ;; .cont) .skip ;;
+      .ite (.flag .okMark) "strings.Contains($IssueCmd, \"[OK]\")" (.ret .none []) .skip ;;
+      .ite (.flag .openFailed) "strings.Contains($IssueCmd, \"startup-config file open failed\")"
+        (.ite .ctrPos "$const > 0" (.decCtr ;; .cont) .skip ;;
          .abort ["write mem: startup-config open failed - giving up"]) .skip ;;
       .abort ["write mem: unexpected result: %s", "_"]) env sX).mode = .ret) :
     saveConfirmed (exec (
-      .ite (.flag .okMark) "strings.Contains(out, \"[OK]\")" (.ret .none []) .skip ;;
-      .ite (.flag .openFailed) "strings.Contains(out, \"startup-config file open failed\")"
-        (.ite .ctrPos "retries > 0" (.decCtr ;; .cont) .skip ;;
+      .ite (.flag .okMark) "strings.Contains($IssueCmd, \"[OK]\")" (.ret .none []) .skip ;;
+      .ite (.flag .openFailed) "strings.Contains($IssueCmd, \"startup-config file open failed\")"
+        (.ite .ctrPos "$const > 0" (.decCtr ;; .cont) .skip ;;
          .abort ["write mem: startup-config open failed - giving up"]) .skip ;;
       .abort ["write mem: unexpected result: %s", "_"]) env sX).tr = true := by
   have hm1 := h.mode
@@ -179,17 +179,17 @@ def panosPollRound : Sess :=
   .ite .err "err != nil" (.ret .keep ["err"]) .skip ;;
   xmlUnmarshal ;;
   .ite .err "err != nil" (.ret .keep ["err"]) .skip ;;
-  .ite (.flag .pend) "s.Result == \"PEND\"" .cont
-    (.ite (.flag .jobOk) "s.Result == \"OK\"" (.ret .nil ["nil"]) (.ret .err ["_"]))
+  .ite (.flag .pend) "¬$new.Result != \"PEND\"" .cont
+    (.ite (.flag .jobOk) "¬$new.Result != \"OK\"" (.ret .nil ["nil"]) (.ret .err ["_"]))
 
 /-- the commit request and the inspection of its answer -/
 def panosCommitHead : Sess :=
   panosDoCmd .save (.lit "commit") ;;
   .ite .err "err != nil" (.ret .keep ["err"]) .skip ;;
   .ite (.flag .noChanges)
-    "strings.Contains(msg, \"There are no changes to commit\") || strings.Contains(msg, \"The result of this commit would be the same\")"
+    "strings.Contains($doCmd.1, \"There are no changes to commit\") || strings.Contains($doCmd.1, \"The result of this commit would be the same\")"
     (.ret .nil ["nil"]) .skip ;;
-  .ite (.not (.flag .msgEmpty)) "msg != \"\"" (.ret .err ["_"]) .skip
+  .ite (.not (.flag .msgEmpty)) "$doCmd.1 != \"\"" (.ret .err ["_"]) .skip
 
 theorem panosCommitBody_eq : panosCommitBody =
     (panosCommitHead ;; xmlUnmarshal ;; .ite .err "err != nil" (.ret .keep ["err"]) .skip ;; .loopFuel panosPollRound) := rfl
